@@ -140,8 +140,7 @@ theorem cocCorner_inv (ctv : Array Nat) (st : HEState) (c : Nat) (hc : c < ctv.s
     cases hx : oget st.opp c with
     | none => rfl
     | some b => exact absurd (h.bound c b hx) (Nat.lt_irrefl c)
-  unfold cocCorner
-  simp only []
+  rw [cocCorner_eq]
   split
   · -- a matching half-edge was found
     rename_i e rest hm
